@@ -445,6 +445,8 @@ def shadow_axml(axml):
     axml.range = E.sx_range
     axml.int = E.sx_int
     axml.logger = E.NullLogger()
+    axml.bytes = E.sx_bytes
+    axml.bytearray = E.sx_bytearray
     from .sfmt import sx_float
     axml.float = sx_float
     return axml
